@@ -317,3 +317,560 @@ example : frameIds (.many ["cam_front", "cam_rear"]) = .error "ValueError" := by
 example : checkTask ["sensing"] "detection" = .error "ValueError" ∧ checkTask ["sensing"] "sensing" = .ok (some "SENSING") := by decide
 
 end PEval.C20
+
+/-!
+# Value level (audit round 1, item 6): the parsers hand back the MEMBER, not its name
+
+`PEval.Enums.PyRet` tells a member of an enum class, a `str` and `None` apart.  The theorems below restate the
+property on that type for the parsers as they are now (`…V`); each is REFUTED for the F12-defective variant next to the
+model (`…_F12`: `return k` instead of `return v`) — which the string-level theorems above are not (`…_erase`).
+-/
+namespace PEval.C20
+open PEval.Enums PEval
+
+/-! ## every regenerated table is present (an empty table would make every `∀ p ∈ Gen.x` statement vacuous) -/
+
+theorem evaluationTask_nonempty : Gen.evaluationTask ≠ [] := by decide
+theorem frameID_nonempty : Gen.frameID ≠ [] := by decide
+theorem visibility_nonempty : Gen.visibility ≠ [] := by decide
+theorem sensorModality_nonempty : Gen.sensorModality ≠ [] := by decide
+theorem shapeType_nonempty : Gen.shapeType ≠ [] := by decide
+theorem matchingLabelPolicy_nonempty : Gen.matchingLabelPolicy ≠ [] := by decide
+theorem visibilityAlias_nonempty : Gen.visibilityAlias ≠ [] := by decide
+theorem taskIs3d_nonempty : Gen.taskIs3d ≠ [] := by decide
+/-- `is_3d()` was recorded for exactly the members of `EvaluationTask`, in definition order -/
+theorem taskIs3d_names : Gen.taskIs3d.map (·.1) = names Gen.evaluationTask := by decide
+/-- both kinds of task exist (the 2-D rejection and the 3-D answers of `from_task` are not vacuous) -/
+theorem taskIs3d_both : (∃ p ∈ Gen.taskIs3d, p.2 = "true") ∧ (∃ p ∈ Gen.taskIs3d, p.2 = "false") := by decide
+/-- member names are pairwise distinct in every table (a value-level result `.member enum name` names ONE member) -/
+theorem names_nodup : (names Gen.evaluationTask).Nodup ∧ (names Gen.frameID).Nodup ∧ (names Gen.visibility).Nodup ∧
+    (names Gen.sensorModality).Nodup ∧ (names Gen.shapeType).Nodup ∧ (names Gen.matchingLabelPolicy).Nodup := by decide
+
+/-! ## projection: erasing the kind of the value gives the string-level model back -/
+
+theorem firstMemberV_eq (enum : String) (t : Table) (s : String) :
+    firstMemberV enum t s = (firstByValue t s).map (PyRet.member enum) := by
+  unfold firstMemberV firstByValue; cases t.find? (fun p => p.2 == s) <;> rfl
+
+theorem firstKey_F12_eq (t : Table) (s : String) : firstKey_F12 t s = (firstByValue t s).map PyRet.str := by
+  unfold firstKey_F12 firstByValue; cases t.find? (fun p => p.2 == s) <;> rfl
+
+theorem taskFromValueV_eq (s : String) : taskFromValueV s = (taskFromValue s).map (PyRet.member "EvaluationTask") := by
+  unfold taskFromValueV taskFromValue; rw [firstMemberV_eq]; cases firstByValue Gen.evaluationTask s <;> rfl
+
+theorem setTaskV_eq (s : String) : setTaskV s = ((setTask s).map (PyRet.member "EvaluationTask")).getD .none := by
+  unfold setTaskV setTask; rw [firstMemberV_eq]; cases firstByValue Gen.evaluationTask s <;> rfl
+
+theorem frameFromValueV_eq (s : String) : frameFromValueV s = (frameFromValue s).map (PyRet.member "FrameID") := by
+  unfold frameFromValueV frameFromValue; rw [firstMemberV_eq]; cases firstByValue Gen.frameID s.toLower <;> rfl
+
+theorem visibilityFromValueV_eq (s : String) :
+    visibilityFromValueV s = (visibilityFromValue s).map (PyRet.member "Visibility") := by
+  unfold visibilityFromValueV visibilityFromValue; rw [firstMemberV_eq]; cases firstByValue Gen.visibility s <;> rfl
+
+theorem sensorFromValueV_eq (s : String) : sensorFromValueV s = (sensorFromValue s).map (PyRet.member "SensorModality") := by
+  unfold sensorFromValueV sensorFromValue; rw [firstMemberV_eq]; cases firstByValue Gen.sensorModality s <;> rfl
+
+theorem shapeTypeFromValueV_eq (s : String) : shapeTypeFromValueV s = (shapeTypeFromValue s).map (PyRet.member "ShapeType") := by
+  unfold shapeTypeFromValueV shapeTypeFromValue; rw [firstMemberV_eq]; cases firstByValue Gen.shapeType s <;> rfl
+
+theorem policyFromStrV_eq (s : String) : policyFromStrV s = (policyFromStr s).map (PyRet.member "MatchingLabelPolicy") := by
+  unfold policyFromStrV policyFromStr; simp only []; split <;> rfl
+
+/-- the string-level model cannot tell the repaired parsers from the F12 ones: both erase to the same `Res` -/
+theorem F12_same_erasure (s : String) :
+    (visibilityFromValue_F12 s).erase = (visibilityFromValueV s).erase ∧
+    (shapeTypeFromValue_F12 s).erase = (shapeTypeFromValueV s).erase ∧
+    (s ∈ values Gen.sensorModality → (sensorFromValue_F12 s).erase = (sensorFromValueV s).erase) := by
+  refine ⟨?_, ?_, ?_⟩
+  · unfold visibilityFromValue_F12 visibilityFromValueV
+    rw [firstKey_F12_eq, firstMemberV_eq]; cases firstByValue Gen.visibility s <;> rfl
+  · unfold shapeTypeFromValue_F12 shapeTypeFromValueV
+    rw [firstKey_F12_eq, firstMemberV_eq]; cases firstByValue Gen.shapeType s <;> rfl
+  · intro h
+    obtain ⟨p, hp, rfl⟩ := List.mem_map.1 h
+    unfold sensorFromValue_F12 sensorFromValueV
+    rw [firstKey_F12_eq, firstMemberV_eq, firstByValue_mem sensor_values_nodup hp]; rfl
+
+/-! ## round trips at value level: the member itself comes back -/
+
+theorem roundtripV_task : ∀ p ∈ Gen.evaluationTask, taskFromValueV p.2 = .ok (.member "EvaluationTask" p.1) := by
+  intro p hp; rw [taskFromValueV_eq, roundtrip_task p hp]; rfl
+
+theorem roundtripV_setTask : ∀ p ∈ Gen.evaluationTask, setTaskV p.2 = .member "EvaluationTask" p.1 := by
+  intro p hp; rw [setTaskV_eq, roundtrip_setTask p hp]; rfl
+
+theorem roundtripV_frame : ∀ p ∈ Gen.frameID,
+    frameFromValueV p.2 = .ok (.member "FrameID" p.1) ∧ frameFromValueV p.2.toUpper = .ok (.member "FrameID" p.1) := by
+  intro p hp; rw [frameFromValueV_eq, frameFromValueV_eq, roundtrip_frame p hp, roundtrip_frame_upper p hp]; exact ⟨rfl, rfl⟩
+
+theorem roundtripV_visibility : ∀ p ∈ Gen.visibility, visibilityFromValueV p.2 = .ok (.member "Visibility" p.1) := by
+  intro p hp; rw [visibilityFromValueV_eq, roundtrip_visibility p hp]; rfl
+
+theorem roundtripV_sensor : ∀ p ∈ Gen.sensorModality, sensorFromValueV p.2 = .ok (.member "SensorModality" p.1) := by
+  intro p hp; rw [sensorFromValueV_eq, roundtrip_sensor p hp]; rfl
+
+theorem roundtripV_shapeType : ∀ p ∈ Gen.shapeType, shapeTypeFromValueV p.2 = .ok (.member "ShapeType" p.1) := by
+  intro p hp; rw [shapeTypeFromValueV_eq, roundtrip_shapeType p hp]; rfl
+
+theorem roundtripV_policy : ∀ p ∈ Gen.matchingLabelPolicy,
+    policyFromStrV p.2 = .ok (.member "MatchingLabelPolicy" p.1) ∧
+    policyFromStrV p.2.toLower = .ok (.member "MatchingLabelPolicy" p.1) := by
+  intro p hp; rw [policyFromStrV_eq, policyFromStrV_eq, roundtrip_policy p hp, roundtrip_policy_lower p hp]; exact ⟨rfl, rfl⟩
+
+/-- a documented alias and every other non-member string give a MEMBER of `Visibility` -/
+theorem visibilityV_alias : ∀ a ∈ Gen.visibilityAlias, visibilityFromValueV a.1 = .ok (.member "Visibility" a.2) := by
+  intro a ha; rw [visibilityFromValueV_eq, visibility_alias a ha]; rfl
+
+theorem visibilityV_fallback (s : String) (h : s ∉ values Gen.visibility) (ha : s ∉ Gen.visibilityAlias.map (·.1)) :
+    visibilityFromValueV s = .ok (.member "Visibility" Gen.visibilityAliasFallback) := by
+  rw [visibilityFromValueV_eq, visibility_fallback s h ha]; rfl
+
+/-! ## whatever the string: a parser answers with a member of ITS enum or raises — never a `str`, never `None` -/
+
+theorem map_member_ok {enum : String} {r : Res} {v : PyRet} (h : r.map (PyRet.member enum) = .ok v) :
+    ∃ m, r = .ok m ∧ v = .member enum m := by
+  cases r with
+  | error k => cases h
+  | ok m => exact ⟨m, rfl, by cases h; rfl⟩
+
+theorem taskV_sound (s : String) (v : PyRet) (h : taskFromValueV s = .ok v) :
+    ∃ m, (m, s) ∈ Gen.evaluationTask ∧ v = .member "EvaluationTask" m := by
+  rw [taskFromValueV_eq] at h
+  obtain ⟨m, hm, rfl⟩ := map_member_ok h
+  refine ⟨m, ?_, rfl⟩
+  unfold taskFromValue at hm
+  cases hf : firstByValue Gen.evaluationTask s with
+  | none => rw [hf] at hm; cases hm
+  | some m' => rw [hf] at hm; cases hm; exact firstByValue_some_mem hf
+
+theorem setTaskV_sound (s : String) :
+    setTaskV s = .none ∨ ∃ m, (m, s) ∈ Gen.evaluationTask ∧ setTaskV s = .member "EvaluationTask" m := by
+  rw [setTaskV_eq]; unfold setTask
+  cases hf : firstByValue Gen.evaluationTask s with
+  | none => exact Or.inl rfl
+  | some m => exact Or.inr ⟨m, firstByValue_some_mem hf, rfl⟩
+
+theorem frameV_sound (s : String) (v : PyRet) (h : frameFromValueV s = .ok v) :
+    ∃ m, (m, s.toLower) ∈ Gen.frameID ∧ v = .member "FrameID" m := by
+  rw [frameFromValueV_eq] at h
+  obtain ⟨m, hm, rfl⟩ := map_member_ok h
+  refine ⟨m, ?_, rfl⟩
+  unfold frameFromValue at hm
+  cases hf : firstByValue Gen.frameID s.toLower with
+  | none => rw [hf] at hm; cases hm
+  | some m' => rw [hf] at hm; cases hm; exact firstByValue_some_mem hf
+
+/-- `Visibility.from_value` is total and always answers with a member of `Visibility` -/
+theorem visibilityV_total (s : String) : ∃ m ∈ names Gen.visibility, visibilityFromValueV s = .ok (.member "Visibility" m) := by
+  obtain ⟨m, hm, h⟩ := visibility_total s
+  exact ⟨m, hm, by rw [visibilityFromValueV_eq, h]; rfl⟩
+
+theorem sensorV_sound (s : String) (v : PyRet) (h : sensorFromValueV s = .ok v) :
+    ∃ m, (m, s) ∈ Gen.sensorModality ∧ v = .member "SensorModality" m := by
+  rw [sensorFromValueV_eq] at h
+  obtain ⟨m, hm, rfl⟩ := map_member_ok h
+  refine ⟨m, ?_, rfl⟩
+  unfold sensorFromValue at hm
+  cases hf : firstByValue Gen.sensorModality s with
+  | none => rw [hf] at hm; cases hm
+  | some m' => rw [hf] at hm; cases hm; exact firstByValue_some_mem hf
+
+theorem shapeTypeV_sound (s : String) (v : PyRet) (h : shapeTypeFromValueV s = .ok v) :
+    ∃ m, (m, s) ∈ Gen.shapeType ∧ v = .member "ShapeType" m := by
+  rw [shapeTypeFromValueV_eq] at h
+  obtain ⟨m, hm, rfl⟩ := map_member_ok h
+  refine ⟨m, ?_, rfl⟩
+  unfold shapeTypeFromValue at hm
+  cases hf : firstByValue Gen.shapeType s with
+  | none => rw [hf] at hm; cases hm
+  | some m' => rw [hf] at hm; cases hm; exact firstByValue_some_mem hf
+
+theorem policyV_sound (s : String) (v : PyRet) (h : policyFromStrV s = .ok v) :
+    s.toUpper ∈ names Gen.matchingLabelPolicy ∧ v = .member "MatchingLabelPolicy" s.toUpper := by
+  unfold policyFromStrV at h
+  simp only [] at h
+  split at h
+  · rename_i hc
+    exact ⟨by simpa using hc, by cases h; rfl⟩
+  · cases h
+
+/-! ### the F12 variants violate the value-level round trips (and the soundness statements) -/
+
+example : ¬ (∀ p ∈ Gen.visibility, visibilityFromValue_F12 p.2 = .ok (.member "Visibility" p.1)) := by decide
+example : ¬ (∀ p ∈ Gen.sensorModality, sensorFromValue_F12 p.2 = .ok (.member "SensorModality" p.1)) := by decide
+example : ¬ (∀ p ∈ Gen.shapeType, shapeTypeFromValue_F12 p.2 = .ok (.member "ShapeType" p.1)) := by decide
+example : ¬ (∀ p ∈ Gen.matchingLabelPolicy, policyFromStr_S p.2 = .ok (.member "MatchingLabelPolicy" p.1)) := by decide +kernel
+example : visibilityFromValue_F12 "full" = .ok (.str "FULL") ∧ visibilityFromValueV "full" = .ok (.member "Visibility" "FULL") := by decide
+example : sensorFromValue_F12 "sonar" = .ok .none ∧ sensorFromValueV "sonar" = .error "ValueError" := by decide
+example : ¬ (∀ s v, sensorFromValue_F12 s = .ok v → ∃ m, (m, s) ∈ Gen.sensorModality ∧ v = .member "SensorModality" m) := by
+  intro h
+  obtain ⟨m, _, hv⟩ := h "sonar" .none (by decide)
+  cases hv
+/-- … while the old string-level round trips hold of the F12 variants too (this is the audit's point) -/
+example : ∀ p ∈ Gen.visibility, (visibilityFromValue_F12 p.2).erase = .ok (some p.1) := by decide
+
+end PEval.C20
+
+/-! # Value level, string-or-enum call sites: `Shape`, `TransformKey`, `FrameID.from_task`, the multi-string sites -/
+namespace PEval.C20
+open PEval.Enums PEval
+
+/-! ## `Shape(shape_type, size, footprint)`: `Shape.type` holds the member for both spellings -/
+
+theorem shapeInitV_str (s : String) (fp : Bool) :
+    shapeInitV (.str s) fp = (shapeTypeFromValueV s).bind fun t =>
+      if fp then .ok t else if neBoundingBox t then .error "ValueError" else .ok t := rfl
+
+theorem shapeInitV_member (e m : String) (fp : Bool) :
+    shapeInitV (.member e m) fp =
+      if fp then .ok (.member e m) else if neBoundingBox (.member e m) then .error "ValueError" else .ok (.member e m) := rfl
+
+/-- both spellings of a shape type build the same `Shape.type`, with and without an explicit footprint -/
+theorem shapeV_str_eq_enum : ∀ p ∈ Gen.shapeType, ∀ fp,
+    shapeInitV (.str p.2) fp = shapeInitV (.member "ShapeType" p.1) fp := by
+  intro p hp fp
+  rw [shapeInitV_str, shapeInitV_member, roundtripV_shapeType p hp]; rfl
+
+/-- with an explicit footprint `Shape.type` is THE MEMBER, whichever spelling was given (seed C20_G stored the string) -/
+theorem shapeV_stored_member : ∀ p ∈ Gen.shapeType, ∀ a ∈ [PyRet.str p.2, PyRet.member "ShapeType" p.1],
+    shapeInitV a true = .ok (.member "ShapeType" p.1) := by
+  intro p hp a ha
+  have h := shapeV_str_eq_enum p hp true
+  simp only [List.mem_cons, List.not_mem_nil, or_false] at ha
+  rcases ha with rfl | rfl
+  · rw [h]; rfl
+  · rfl
+
+/-- without a footprint: the member for BOUNDING_BOX, `ValueError` for every other type, the same for both spellings -/
+theorem shapeV_no_footprint : ∀ p ∈ Gen.shapeType, ∀ a ∈ [PyRet.str p.2, PyRet.member "ShapeType" p.1],
+    shapeInitV a false = if p.1 = "BOUNDING_BOX" then .ok (.member "ShapeType" p.1) else .error "ValueError" := by decide
+
+/-- a string argument never survives as a string: `Shape.type` is a member of `ShapeType` whose value is that string -/
+theorem shapeV_sound (s : String) (fp : Bool) (v : PyRet) (h : shapeInitV (.str s) fp = .ok v) :
+    ∃ m, (m, s) ∈ Gen.shapeType ∧ v = .member "ShapeType" m := by
+  rw [shapeInitV_str] at h
+  cases hs : shapeTypeFromValueV s with
+  | error k => rw [hs] at h; cases h
+  | ok t =>
+    rw [hs] at h
+    obtain ⟨m, hm, rfl⟩ := shapeTypeV_sound s t hs
+    refine ⟨m, hm, ?_⟩
+    simp only [Except.bind] at h
+    split at h
+    · cases h; rfl
+    · split at h
+      · cases h
+      · cases h; rfl
+
+theorem shapeV_nonmember (s : String) (fp : Bool) (h : s ∉ values Gen.shapeType) :
+    shapeInitV (.str s) fp = .error "ValueError" := by
+  rw [shapeInitV_str, shapeTypeFromValueV_eq, nonmember_shapeType s h]; rfl
+
+/-- link with the string-level argument model -/
+theorem shapeInitV_eq (a : Arg) : shapeInitV (argV "ShapeType" a) true = (shapeTypeOfArg a).map (PyRet.member "ShapeType") := by
+  cases a with
+  | str s =>
+    show shapeInitV (.str s) true = _
+    rw [shapeInitV_str, shapeTypeFromValueV_eq]
+    show _ = (shapeTypeFromValue s).map (PyRet.member "ShapeType")
+    cases shapeTypeFromValue s <;> rfl
+  | member m => rfl
+
+/-- C20_G (string stored verbatim next to an explicit footprint) and the F12 parser under `Shape` violate all of this -/
+example : ¬ (∀ p ∈ Gen.shapeType, ∀ fp, shapeInitV_G (.str p.2) fp = shapeInitV_G (.member "ShapeType" p.1) fp) := by decide
+example : ¬ (∀ p ∈ Gen.shapeType, ∀ a ∈ [PyRet.str p.2, PyRet.member "ShapeType" p.1],
+    shapeInitV_G a true = .ok (.member "ShapeType" p.1)) := by decide
+example : shapeInitV_G (.str "polygon") true = .ok (.str "polygon") ∧ shapeInitV_G (.str "circle") true = .ok (.str "circle") := by
+  decide
+example : ¬ (∀ p ∈ Gen.shapeType, ∀ fp, shapeInitV_F12 (.str p.2) fp = shapeInitV_F12 (.member "ShapeType" p.1) fp) := by decide
+/-- the F12 symptom: `Shape("bounding_box", size)` raised, `Shape("polygon", size, footprint).type` was `'POLYGON'` -/
+example : shapeInitV_F12 (.str "bounding_box") false = .error "ValueError" ∧
+    shapeInitV_F12 (.str "polygon") true = .ok (.str "POLYGON") := by decide
+example : shapeInitV (.str "bounding_box") false = .ok (.member "ShapeType" "BOUNDING_BOX") ∧
+    shapeInitV (.str "polygon") true = .ok (.member "ShapeType" "POLYGON") ∧
+    shapeInitV (.str "polygon") false = .error "ValueError" ∧ shapeInitV (.str "BOUNDING_BOX") true = .error "ValueError" := by decide
+
+/-! ## `TransformKey(src, dst)` / `HomogeneousMatrix(…, src, dst)`: both fields hold members for every spelling -/
+
+theorem frameArgV_spellings : ∀ p ∈ Gen.frameID, ∀ a ∈ spellingsV "FrameID" p, frameOfArgV a = .ok (.member "FrameID" p.1) := by
+  intro p hp a ha
+  simp only [spellingsV, List.mem_cons, List.not_mem_nil, or_false] at ha
+  rcases ha with rfl | rfl | rfl
+  · exact (roundtripV_frame p hp).1
+  · exact (roundtripV_frame p hp).2
+  · rfl
+
+/-- value, upper-case value and member, independently for source and destination (9 combinations): the key holds the two
+members -/
+theorem transformKeyV_spellings : ∀ p ∈ Gen.frameID, ∀ r ∈ Gen.frameID,
+    ∀ a ∈ spellingsV "FrameID" p, ∀ b ∈ spellingsV "FrameID" r,
+    transformKeyV a b = .ok (.member "FrameID" p.1, .member "FrameID" r.1) := by
+  intro p hp r hr a ha b hb
+  unfold transformKeyV
+  rw [frameArgV_spellings p hp a ha, frameArgV_spellings r hr b hb]; rfl
+
+/-- a string argument never survives as a string in `key.src` / `key.dst` -/
+theorem transformKeyV_sound (a b x y : PyRet) (h : transformKeyV a b = .ok (x, y)) :
+    (∀ s, a = .str s → ∃ m, (m, s.toLower) ∈ Gen.frameID ∧ x = .member "FrameID" m) ∧
+    (∀ d, b = .str d → ∃ m, (m, d.toLower) ∈ Gen.frameID ∧ y = .member "FrameID" m) ∧
+    ((∀ s, a ≠ .str s) → x = a) ∧ ((∀ d, b ≠ .str d) → y = b) := by
+  unfold transformKeyV at h
+  cases ha : frameOfArgV a with
+  | error k => rw [ha] at h; cases h
+  | ok x' =>
+    cases hb : frameOfArgV b with
+    | error k => rw [ha, hb] at h; cases h
+    | ok y' =>
+      rw [ha, hb] at h
+      have hx : x' = x := by cases h; rfl
+      have hy : y' = y := by cases h; rfl
+      subst hx; subst hy
+      refine ⟨?_, ?_, ?_, ?_⟩
+      · intro s hs; subst hs; exact frameV_sound s _ ha
+      · intro d hd; subst hd; exact frameV_sound d _ hb
+      · intro hn; cases a with
+        | str s => exact absurd rfl (hn s)
+        | member e m => cases ha; rfl
+        | none => cases ha; rfl
+      · intro hn; cases b with
+        | str s => exact absurd rfl (hn s)
+        | member e m => cases hb; rfl
+        | none => cases hb; rfl
+
+/-- link with the string-level `transformKey` -/
+theorem transformKeyV_eq (a b : Arg) :
+    transformKeyV (argV "FrameID" a) (argV "FrameID" b) =
+      (transformKey a b).map fun k => (PyRet.member "FrameID" k.1, PyRet.member "FrameID" k.2) := by
+  have hA : ∀ a : Arg, frameOfArgV (argV "FrameID" a) = (frameOfArg a).map (PyRet.member "FrameID") := by
+    intro a; cases a with
+    | str s => exact frameFromValueV_eq s
+    | member m => rfl
+  unfold transformKeyV transformKey
+  rw [hA a, hA b]
+  cases frameOfArg a with
+  | error k => rfl
+  | ok x => cases frameOfArg b <;> rfl
+
+/-- seeded C20_B (`dst` parsed when `src` is a string) and C20_J (parsed only when both are strings) violate it in a mixed
+spelling -/
+example : ¬ (∀ p ∈ Gen.frameID, ∀ r ∈ Gen.frameID, ∀ a ∈ spellingsV "FrameID" p, ∀ b ∈ spellingsV "FrameID" r,
+    transformKeyV_B a b = .ok (.member "FrameID" p.1, .member "FrameID" r.1)) := by
+  intro h
+  have := h ("MAP", "map") (by decide) ("BASE_LINK", "base_link") (by decide) (.member "FrameID" "MAP") (by decide +kernel)
+    (.str "base_link") (by decide +kernel)
+  revert this; decide +kernel
+example : ¬ (∀ p ∈ Gen.frameID, ∀ r ∈ Gen.frameID, ∀ a ∈ spellingsV "FrameID" p, ∀ b ∈ spellingsV "FrameID" r,
+    transformKeyV_J a b = .ok (.member "FrameID" p.1, .member "FrameID" r.1)) := by
+  intro h
+  have := h ("MAP", "map") (by decide) ("BASE_LINK", "base_link") (by decide) (.str "map") (by decide +kernel)
+    (.member "FrameID" "BASE_LINK") (by decide +kernel)
+  revert this; decide +kernel
+example : transformKeyV_B (.member "FrameID" "MAP") (.str "base_link") = .ok (.member "FrameID" "MAP", .str "base_link") ∧
+    transformKeyV_J (.str "map") (.member "FrameID" "BASE_LINK") = .ok (.str "map", .member "FrameID" "BASE_LINK") ∧
+    transformKeyV (.str "MAP") (.member "FrameID" "BASE_LINK") = .ok (.member "FrameID" "MAP", .member "FrameID" "BASE_LINK") := by
+  decide +kernel
+
+/-! ## `FrameID.from_task(task)`: the task as string value and as member -/
+
+/-- both spellings of a task give the same answer (the same frame member, or the same rejection) -/
+theorem fromTask_str_eq_enum : ∀ p ∈ Gen.evaluationTask,
+    frameFromTaskV (.str p.2) = frameFromTaskV (.member "EvaluationTask" p.1) := by
+  intro p hp
+  show (taskFromValueV p.2).bind frameOfTaskMember = _
+  rw [roundtripV_task p hp]; rfl
+
+/-- whatever the argument, an answer of `from_task` is a member of `FrameID` -/
+theorem fromTask_sound (a v : PyRet) (h : frameFromTaskV a = .ok v) : ∃ f ∈ names Gen.frameID, v = .member "FrameID" f := by
+  have hm : ∀ t, frameOfTaskMember t = .ok v → ∃ f ∈ names Gen.frameID, v = .member "FrameID" f := by
+    intro t ht
+    unfold frameOfTaskMember at ht
+    split at ht
+    · split at ht
+      · cases ht
+      · split at ht
+        · cases ht
+        · split at ht
+          · cases ht; exact ⟨"BASE_LINK", by decide, rfl⟩
+          · split at ht
+            · cases ht; exact ⟨"MAP", by decide, rfl⟩
+            · cases ht
+    · cases ht
+  cases a with
+  | str s =>
+    have : frameFromTaskV (.str s) = (taskFromValueV s).bind frameOfTaskMember := rfl
+    rw [this] at h
+    cases ht : taskFromValueV s with
+    | error k => rw [ht] at h; cases h
+    | ok t => rw [ht] at h; exact hm t h
+  | member e m => exact hm (.member e m) h
+  | none => exact hm .none h
+
+/-- a 2-D task is rejected in both spellings -/
+theorem fromTask_2d_rejected : ∀ p ∈ Gen.evaluationTask, taskIs3d p.1 = false →
+    frameFromTaskV (.str p.2) = .error "ValueError" ∧ frameFromTaskV (.member "EvaluationTask" p.1) = .error "ValueError" := by
+  decide
+
+/-- a string that is no task value is rejected -/
+theorem fromTask_nonmember (s : String) (h : s ∉ values Gen.evaluationTask) : frameFromTaskV (.str s) = .error "ValueError" := by
+  show (taskFromValueV s).bind frameOfTaskMember = _
+  rw [taskFromValueV_eq, nonmember_task s h]; rfl
+
+/-- the members the branches of `from_task` name exist: the four tasks are 3-D members of `EvaluationTask`, the two frames
+are members of `FrameID` (a renamed member breaks this) -/
+theorem fromTask_names_present :
+    (∀ m ∈ ["DETECTION", "SENSING", "TRACKING", "PREDICTION"], m ∈ names Gen.evaluationTask ∧ taskIs3d m = true) ∧
+    "BASE_LINK" ∈ names Gen.frameID ∧ "MAP" ∈ names Gen.frameID := by decide
+
+/-- the documented answers, in both spellings -/
+theorem fromTask_documented : ∀ p ∈ Gen.evaluationTask, ∀ a ∈ [PyRet.str p.2, PyRet.member "EvaluationTask" p.1],
+    ((p.1 = "DETECTION" ∨ p.1 = "SENSING") → frameFromTaskV a = .ok (.member "FrameID" "BASE_LINK")) ∧
+    ((p.1 = "TRACKING" ∨ p.1 = "PREDICTION") → frameFromTaskV a = .ok (.member "FrameID" "MAP")) := by decide
+
+/-- without the conversion of the string the two spellings differ -/
+example : ¬ (∀ p ∈ Gen.evaluationTask, frameFromTaskV_noconv (.str p.2) = frameFromTaskV_noconv (.member "EvaluationTask" p.1)) := by
+  decide
+example : frameFromTaskV (.str "tracking") = .ok (.member "FrameID" "MAP") ∧
+    frameFromTaskV (.member "EvaluationTask" "SENSING") = .ok (.member "FrameID" "BASE_LINK") ∧
+    frameFromTaskV (.str "fp_validation") = .error "ValueError" ∧
+    frameFromTaskV (.member "FrameID" "MAP") = .error "AttributeError" ∧
+    frameFromTaskV_noconv (.str "tracking") = .error "AttributeError" := by decide
+example : ∃ p ∈ Gen.evaluationTask, taskIs3d p.1 = false := by decide
+example : "Tracking" ∉ values Gen.evaluationTask := by decide
+
+/-! ## the parse sites taking several strings hand back members -/
+
+theorem membersNamedV_eq (enum : String) (t : Table) (s : String) :
+    membersNamedV enum t s = (membersNamed t s).map (PyRet.member enum) := by
+  simp [membersNamedV, membersNamed, List.map_map, Function.comp_def]
+
+theorem setTaskListsV_eq (l : List String) : setTaskListsV l = (setTaskLists l).map (PyRet.member "EvaluationTask") := by
+  induction l with
+  | nil => rfl
+  | cons s l ih =>
+    have h1 : setTaskListsV (s :: l) = membersNamedV "EvaluationTask" Gen.evaluationTask s ++ setTaskListsV l := by
+      simp [setTaskListsV]
+    have h2 : setTaskLists (s :: l) = membersNamed Gen.evaluationTask s ++ setTaskLists l := by simp [setTaskLists]
+    rw [h1, h2, ih, membersNamedV_eq, List.map_append]
+
+theorem setTaskDictV_eq {α : Type} (kv : List (String × α)) :
+    setTaskDictV kv = (setTaskDict kv).map fun e => (PyRet.member "EvaluationTask" e.1, e.2) := by
+  induction kv with
+  | nil => rfl
+  | cons e kv ih =>
+    have h1 : setTaskDictV (e :: kv) =
+        (membersNamedV "EvaluationTask" Gen.evaluationTask e.1).map (fun m => (m, e.2)) ++ setTaskDictV kv := by
+      simp [setTaskDictV]
+    have h2 : setTaskDict (e :: kv) = (membersNamed Gen.evaluationTask e.1).map (fun m => (m, e.2)) ++ setTaskDict kv := by
+      simp [setTaskDict]
+    rw [h1, h2, ih, membersNamedV_eq, List.map_append]
+    simp [List.map_map, Function.comp_def]
+
+theorem mapM_frameFromValueV_eq (l : List String) :
+    l.mapM frameFromValueV = (l.mapM frameFromValue).map (List.map (PyRet.member "FrameID")) := by
+  induction l with
+  | nil => rfl
+  | cons s l ih =>
+    simp only [List.mapM_cons, ih, frameFromValueV_eq]
+    cases frameFromValue s with
+    | error k => rfl
+    | ok m => cases l.mapM frameFromValue <;> rfl
+
+theorem frameIdsV_eq (a : FrameIdArg) : frameIdsV a = (frameIds a).map (List.map (PyRet.member "FrameID")) := by
+  cases a with
+  | one s =>
+    show (frameFromValueV s).map (fun m => [m]) = ((frameFromValue s).map fun m => [m]).map (List.map (PyRet.member "FrameID"))
+    rw [frameFromValueV_eq]; cases frameFromValue s <;> rfl
+  | many l => exact mapM_frameFromValueV_eq l
+
+theorem checkTaskV_eq (support : List String) (s : String) :
+    checkTaskV support s = (checkTask support s).map fun o => (o.map (PyRet.member "EvaluationTask")).getD .none := by
+  unfold checkTaskV checkTask
+  split
+  · rw [setTaskV_eq]; rfl
+  · rfl
+
+/-- every member value maps to its MEMBER, order and repetitions preserved; nothing but members of `EvaluationTask` comes back -/
+theorem roundtripV_setTaskLists (ps : List (String × String)) (h : ∀ p ∈ ps, p ∈ Gen.evaluationTask) :
+    setTaskListsV (ps.map (·.2)) = ps.map fun p => PyRet.member "EvaluationTask" p.1 := by
+  rw [setTaskListsV_eq, roundtrip_setTaskLists ps h, List.map_map]; rfl
+
+theorem setTaskListsV_sound (l : List String) :
+    ∀ v ∈ setTaskListsV l, ∃ m s, s ∈ l ∧ (m, s) ∈ Gen.evaluationTask ∧ v = .member "EvaluationTask" m := by
+  intro v hv
+  rw [setTaskListsV_eq, List.mem_map] at hv
+  obtain ⟨m, hm, rfl⟩ := hv
+  obtain ⟨s, hs, hms⟩ := setTaskLists_sound l m hm
+  exact ⟨m, s, hs, hms, rfl⟩
+
+theorem roundtripV_setTaskDict {α : Type} (ps : List ((String × String) × α)) (h : ∀ e ∈ ps, e.1 ∈ Gen.evaluationTask) :
+    setTaskDictV (ps.map fun e => (e.1.2, e.2)) = ps.map fun e => (PyRet.member "EvaluationTask" e.1.1, e.2) := by
+  rw [setTaskDictV_eq, roundtrip_setTaskDict ps h, List.map_map]; rfl
+
+theorem roundtripV_frameIds (ps : List (String × String)) (h : ∀ p ∈ ps, p ∈ Gen.frameID) :
+    frameIdsV (.many (ps.map (·.2))) = .ok (ps.map fun p => PyRet.member "FrameID" p.1) := by
+  rw [frameIdsV_eq, roundtrip_frameIds_many ps h]
+  show Except.ok _ = _
+  rw [List.map_map]; rfl
+
+theorem roundtripV_frameIds_one : ∀ p ∈ Gen.frameID,
+    frameIdsV (.one p.2) = .ok [.member "FrameID" p.1] ∧ frameIdsV (.one p.2.toUpper) = .ok [.member "FrameID" p.1] := by
+  intro p hp
+  rw [frameIdsV_eq, frameIdsV_eq, (roundtrip_frameIds_one p hp).1, (roundtrip_frameIds_one p hp).2]; exact ⟨rfl, rfl⟩
+
+theorem roundtripV_checkTask (support : List String) : ∀ p ∈ Gen.evaluationTask, p.2 ∈ support →
+    checkTaskV support p.2 = .ok (.member "EvaluationTask" p.1) := by
+  intro p hp hs
+  rw [checkTaskV_eq, roundtrip_checkTask support p hp hs]; rfl
+
+/-- a `set_task_lists` that appended `task.name` violates it -/
+example : ¬ (∀ ps : List (String × String), (∀ p ∈ ps, p ∈ Gen.evaluationTask) →
+    setTaskListsV_N (ps.map (·.2)) = ps.map fun p => PyRet.member "EvaluationTask" p.1) := by
+  intro h
+  have := h [("TRACKING", "tracking")] (by decide)
+  revert this; decide
+example : setTaskListsV ["tracking", "x", "detection"] = [.member "EvaluationTask" "TRACKING", .member "EvaluationTask" "DETECTION"] := by
+  decide
+example : frameIdsV (.many ["cam_front", "CAM_BACK"]) = .ok [.member "FrameID" "CAM_FRONT", .member "FrameID" "CAM_BACK"] := by
+  decide +kernel
+
+end PEval.C20
+
+/-! # Value level: remaining clauses and non-vacuity witnesses -/
+namespace PEval.C20
+open PEval.Enums PEval
+
+/-- the two further tables of `Gen.Enums` (read by other properties' models) are present too -/
+theorem matchingMode_nonempty : Gen.matchingMode ≠ [] := by decide
+theorem taskIsFpValidation_nonempty : Gen.taskIsFpValidation ≠ [] := by decide
+
+/-- every case spelling of a frame value is read alike (`FrameID.from_value` lower-cases first): e.g. `"Base_Link"` -/
+theorem frameV_case_irrelevant (s t : String) (h : s.toLower = t.toLower) : frameFromValueV s = frameFromValueV t := by
+  unfold frameFromValueV; rw [h]
+
+/-- every case spelling of a policy name is read alike (`from_str` upper-cases first) -/
+theorem policyV_case_irrelevant (s t : String) (h : s.toUpper = t.toUpper) : policyFromStrV s = policyFromStrV t := by
+  unfold policyFromStrV; simp only [h]
+
+/-- mixed-case spellings of every frame (first letter of every word upper-case is one of them) reach the member -/
+theorem roundtripV_frame_anycase (s : String) : ∀ p ∈ Gen.frameID, s.toLower = p.2 → frameFromValueV s = .ok (.member "FrameID" p.1) := by
+  intro p hp h
+  rw [frameV_case_irrelevant s p.2 (by rw [h, frame_values_lower p hp])]
+  exact (roundtripV_frame p hp).1
+
+/-! ## non-vacuity of the hypotheses used above -/
+example : ("Base_Link" : String).toLower = "base_link" ∧ ("BASE_LINK", "base_link") ∈ Gen.frameID := by decide +kernel
+example : frameFromValueV "Base_Link" = .ok (.member "FrameID" "BASE_LINK") := by decide +kernel
+example : ("Allow_Any" : String).toUpper = "ALLOW_ANY" ∧ ("allow_any" : String).toUpper = "ALLOW_ANY" := by decide +kernel
+example : "circle" ∉ values Gen.shapeType ∧ "BOUNDING_BOX" ∉ values Gen.shapeType := by decide
+example : "lidar" ∈ values Gen.sensorModality := by decide
+example : "whatever" ∉ values Gen.visibility ∧ "whatever" ∉ Gen.visibilityAlias.map (·.1) := by decide
+example : taskFromValueV "sensing" = .ok (.member "EvaluationTask" "SENSING") ∧ setTaskV "nope" = .none ∧
+    sensorFromValueV "camera" = .ok (.member "SensorModality" "CAMERA") ∧
+    shapeTypeFromValueV "bounding_box" = .ok (.member "ShapeType" "BOUNDING_BOX") ∧
+    visibilityFromValueV "most" = .ok (.member "Visibility" "MOST") := by decide
+example : policyFromStrV "allow_any" = .ok (.member "MatchingLabelPolicy" "ALLOW_ANY") := by decide +kernel
+example : checkTaskV ["sensing"] "sensing" = .ok (.member "EvaluationTask" "SENSING") ∧
+    checkTaskV ["sensing", "x"] "x" = .ok .none ∧ checkTaskV ["sensing"] "detection" = .error "ValueError" := by decide
+
+end PEval.C20
